@@ -66,6 +66,13 @@ def checkCodeTable (kind : String) (tbl : String) : String :=
       | some (w', rest) => if w' == w && rest == [true, false] then "V ok" else "V decode-differs"
       | none => "V cannot-decode"
 
+/-- `Grammar.expand` with the rule table computed once (`g.table` is re-evaluated by every call of
+`expandSym`); the same value. -/
+def expandT (g : RePair.Grammar) (tbl : List (List Nat)) (seq : List Nat) : List Nat :=
+  seq.flatMap (RePair.expandWith g.terminals tbl)
+
+theorem expandT_table (g : RePair.Grammar) (seq : List Nat) : expandT g g.table seq = g.expand seq := rfl
+
 def checkRePair (maxchar input t bits rules seq : String) : String :=
   let inp := (splitComma input).map fun x => x.toNat?.getD 0
   let terminals := t.toNat?.getD 0
@@ -78,7 +85,7 @@ def checkRePair (maxchar input t bits rules seq : String) : String :=
   if !g.wf then "V rule-refers-forward" else
   if !g.zeroFree then "V rule-contains-terminator" else
   if !(cs.all fun x => x < terminals + rl.length) then "V sequence-symbol-out-of-range" else
-  if g.expand cs != inp then "V expansion-differs-from-input" else
+  if expandT g g.table cs != inp then "V expansion-differs-from-input" else
   let b := bits.toNat?.getD 0
   if b != RePair.bits (rl.length + terminals) then s!"V bits-reported={b}-expected={RePair.bits (rl.length + terminals)}" else
   if !(terminals + rl.length ≤ 2 ^ b) then "V bits-do-not-suffice" else
@@ -104,7 +111,7 @@ def checkRpdac (strsHex queriesHex prefHex t rules seqs loc abs pre : String) : 
   if !g.wf then "V rule-refers-forward" else
   if sq.length != S.length then s!"V sequences={sq.length}-strings={S.length}" else
   if !(sq.all fun syms => syms.all fun x => x < terminals + rl.length) then "V sequence-symbol-out-of-range" else
-  if !((sq.zip S).all fun (syms, s) => g.expand syms == nat s) then "V a-sequence-does-not-expand-to-its-string" else
+  if !(let tbl := g.table; (sq.zip S).all fun (syms, s) => expandT g tbl syms == nat s) then "V a-sequence-does-not-expand-to-its-string" else
   -- the model of locate on the real structures
   let implLoc := (splitComma loc).map fun x => x.toNat?.getD 0
   let implAbs := (splitComma abs).map fun x => x.toNat?.getD 0
@@ -154,9 +161,10 @@ def checkHrpdac (strsHex queriesHex hs ts occ t rules seqs loc abs : String) : S
   if sq.length != S.length then s!"V sequences={sq.length}-strings={S.length}" else
   if !(sq.all fun syms => syms.all fun x => x < terminals + rl.length) then "V sequence-symbol-out-of-range" else
   -- StoresRP: DAC position id holds the string with ID id
+  let tbl := g.table
   if !((List.range S.length).all fun i =>
         match Hash.extract d (i + 1), sq[i]? with
-        | some w, some syms => g.expand syms == Hash.natBytes w
+        | some w, some syms => expandT g tbl syms == Hash.natBytes w
         | _, _ => false) then "V a-DAC-position-does-not-hold-the-string-with-that-ID" else
   let implLoc := (splitComma loc).map fun x => x.toNat?.getD 0
   let implAbs := (splitComma abs).map fun x => x.toNat?.getD 0
@@ -169,13 +177,13 @@ def checkHrpdac (strsHex queriesHex hs ts occ t rules seqs loc abs : String) : S
   "V ok"
 
 /-- Prefix of the stream whose expansion has `n` terminals (greedy; `none` if it does not end on a symbol). -/
-def takeExp (g : RePair.Grammar) : Nat → List Nat → Nat → Option (List Nat)
+def takeExp (g : RePair.Grammar) (tbl : List (List Nat)) : Nat → List Nat → Nat → Option (List Nat)
   | 0, _, _ => none
   | _ + 1, _, 0 => some []
   | fuel + 1, [], _ + 1 => none
   | fuel + 1, x :: xs, n + 1 =>
-    let k := (g.expandSym x).length
-    if k = 0 ∨ k > n + 1 then none else (takeExp g fuel xs (n + 1 - k)).map (x :: ·)
+    let k := (RePair.expandWith g.terminals tbl x).length
+    if k = 0 ∨ k > n + 1 then none else (takeExp g tbl fuel xs (n + 1 - k)).map (x :: ·)
 
 /-- The HASHRPF object exported by the real code against the exact table model and the hypotheses of
 `CSD.Hash.locateRPF_eq` (`StoresRPF`), and the model of the real `locate` run on those structures. -/
@@ -205,11 +213,12 @@ def checkHrpf (strsHex queriesHex hs ts occ t mc rules cls offs loc abs : String
   if cells.length != offL.length then s!"V offsets={offL.length}-occupied={cells.length}" else
   let offOf : Nat → Nat := fun cell => ((cells.zip offL).find? fun ((i, _), _) => i == cell).map (·.2) |>.getD 0
   -- StoresRPF: from the offset of a cell on, symbols expanding to that cell's string and the terminator
+  let tbl := g.table
   if !((cells.zip offL).all fun ((_, k), o) =>
         match S[k]? with
         | some s =>
-          match takeExp g (s.length + 3) (clsL.drop o) (s.length + 1) with
-          | some syms => g.expand syms == Hash.natBytes s ++ [T]
+          match takeExp g tbl (s.length + 3) (clsL.drop o) (s.length + 1) with
+          | some syms => expandT g tbl syms == Hash.natBytes s ++ [T]
           | none => false
         | none => false) then "V a-cell-offset-does-not-lead-to-its-string" else
   let implLoc := (splitComma loc).map fun x => x.toNat?.getD 0
